@@ -401,6 +401,12 @@ class Extractor {
     for (const Stmt* Ch : St->children()) {
       ch.push_back(Ch ? static_cast<int>(IdOf(X, Ch)) : -1);
     }
+    // a default member initialiser used by a constructor: its expression is the (only) child
+    if (const auto* DIE = dyn_cast<CXXDefaultInitExpr>(St)) {
+      if (const Expr* E = DIE->getExpr()) {
+        ch.push_back(static_cast<int>(IdOf(X, E)));
+      }
+    }
     unsigned me = X.nodes.size();
     X.nodes.emplace_back();
     X.id.emplace(St, me);
@@ -1080,6 +1086,20 @@ class Extractor {
       }
       if (F->hasInClassInitializer()) {
         J.raw(",\"dmi\":1");
+        // constant value of the default member initialiser (integers, bools, null pointers)
+        if (const Expr* IE = F->getInClassInitializer()) {
+          if (!IE->isValueDependent()) {
+            Expr::EvalResult R;
+            if (IE->EvaluateAsRValue(R, C)) {
+              if (R.Val.isInt()) {
+                J.raw(",\"dmiv\":");
+                J.raw(toString(R.Val.getInt(), 10));
+              } else if (R.Val.isNullPointer()) {
+                J.raw(",\"dmiv\":0");
+              }
+            }
+          }
+        }
       }
       J.raw("}");
     }
